@@ -125,6 +125,10 @@ package phase4
 //@ func execSinkColoring
 //@   loop range(xcoord)#1
 //@     invariant blockmax != nil && xcoord != nil && blockmax != xcoord
+//@   loop range(slices.Backward(g.Layers))#1
+//@     invariant[|C01] edgePriority != nil && (forall L int, k int :: has(edgePriority, L) && 0 <= k && k < len(edgePriority[L]) ==> edgePriority[L][k] != nil)
+//@   loop range(layer.Nodes)#1
+//@     invariant[|C01] edgePriority != nil && (forall L int, k int :: has(edgePriority, L) && 0 <= k && k < len(edgePriority[L]) ==> edgePriority[L][k] != nil)
 
 // ---------------------------------------------------------------------------
 // Brandes-Koepf direction helpers (C01): the sanity panics fire only for a direction that is neither left nor
@@ -154,6 +158,11 @@ package phase4
 
 // setColor (sink colouring): the scan for a viable in-edge stays inside n.In
 //@ func setColor
+//@   requires[|C01] forall L int, k int :: has(priority, L) && 0 <= k && k < len(priority[L]) ==> priority[L][k] != nil
+//@   ensures[|C01] forall L int, k int :: has(priority, L) && 0 <= k && k < len(priority[L]) ==> priority[L][k] != nil
+//@   assert[a1|C01] before "priority[n.Layer] = append" : e != nil && (forall L int, k int :: has(priority, L) && 0 <= k && k < len(priority[L]) ==> priority[L][k] != nil)
+//@   assert[a2|C01] after "priority[n.Layer] = append" : forall k int :: 0 <= k && k < len(priority[n.Layer]) ==> priority[n.Layer][k] != nil
+//@   assert[a3|C01] after "priority[n.Layer] = append" : forall L int, k int :: L != n.Layer && has(priority, L) && 0 <= k && k < len(priority[L]) ==> priority[L][k] != nil
 //@   loop for(e==nil||e.SelfLoops()||e.IsFlat())#1
 //@     invariant 0 <= i
 
